@@ -46,6 +46,9 @@ impl<'a> StringLexer<'a> {
 
     /// (mostly just used by Iterator, but might be useful)
     pub fn next_lexeme(&mut self) -> Result<Option<u8>> {
+        // a backslash followed by an end-of-line marker produces nothing: skip all of those first
+        // (in a loop, so that a long run of them does not deepen the call stack)
+        while self.skip_line_continuation() {}
         let c = self.next_byte()?;
         match c {
             b'\\' => {
@@ -59,17 +62,6 @@ impl<'a> StringLexer<'a> {
                     b'f' => Some(b'\x0c'),
                     b'(' => Some(b'('),
                     b')' => Some(b')'),
-                    b'\n' => {
-                        // ignore end-of-line marker (LF; a following CR is a line ending of its own)
-                        self.next_lexeme()?
-                    }
-                    b'\r' => {
-                        // ignore end-of-line marker
-                        if let Ok(b'\n') = self.peek_byte() {
-                            let _ = self.next_byte();
-                        }
-                        self.next_lexeme()?
-                    }
                     b'\\' => Some(b'\\'),
 
                     // the backslash is ignored if the next character is not one of those above
@@ -118,6 +110,25 @@ impl<'a> StringLexer<'a> {
 
             c => Ok(Some(c))
 
+        }
+    }
+
+    /// consume `\` followed by LF, CR or CR LF if that is what comes next
+    fn skip_line_continuation(&mut self) -> bool {
+        match self.buf.get(self.pos .. self.pos + 2) {
+            Some(b"\\\n") => {
+                // (LF; a following CR is a line ending of its own)
+                self.pos += 2;
+                true
+            }
+            Some(b"\\\r") => {
+                self.pos += 2;
+                if self.buf.get(self.pos) == Some(&b'\n') {
+                    self.pos += 1;
+                }
+                true
+            }
+            _ => false
         }
     }
 
